@@ -196,6 +196,9 @@ def _resolve(n, S):
                 v = x.get(k)
                 if isinstance(v, int) and not isinstance(v, bool):
                     x[k] = S[v]
+            b = x.get("bases")
+            if isinstance(b, list) and b and all(isinstance(i_, int) and not isinstance(i_, bool) for i_ in b):
+                x["bases"] = [S[i_] for i_ in b]          # base-class names of a record
             for k, v in x.items():
                 if isinstance(v, (dict, list)):
                     stack.append(v)
@@ -394,7 +397,7 @@ def load_program(units=None):
     templates of /repo's headers that the library itself leaves uninstantiated."""
     import pickle
     paths = extract(units, extra_units=INSTANTIATION_DRIVERS)
-    tag = hashlib.sha256(("v2\n" + "\n".join(sorted(paths.values()))).encode()).hexdigest()[:32]
+    tag = hashlib.sha256(("v3\n" + "\n".join(sorted(paths.values()))).encode()).hexdigest()[:32]
     pk = os.path.join(CACHE, "program-%s.pkl" % tag)
     if os.path.exists(pk):
         try:
